@@ -343,9 +343,9 @@ fn split_tokens_by_pipes(tokens: &[Token]) -> Vec<Tokens> {
 fn drain_env_tokens(tokens: &mut Tokens) -> HashMap<String, String> {
     let mut envs: HashMap<String, String> = HashMap::new();
     let mut n = 0;
-    let re = Regex::new(r"^([a-zA-Z0-9_]+)=(.*)$").unwrap();
+    let re = Regex::new(r"(?s)^([a-zA-Z0-9_]+)=(.*)$").unwrap();
     for (sep, text) in tokens.iter() {
-        if !sep.is_empty() || !libs::re::re_contains(text, r"^([a-zA-Z0-9_]+)=(.*)$") {
+        if !sep.is_empty() || !libs::re::re_contains(text, r"(?s)^([a-zA-Z0-9_]+)=(.*)$") {
             break;
         }
 
